@@ -2322,7 +2322,7 @@ class Statements(Sequence, Immutable):
         """
         g = self._create_dependency_graph()
         index = self.index(statement)
-        succ = sorted(list(g.successors(index)))
+        succ = sorted(list(g.successors(index))) if index in g else []
         return Statements(tuple(self[i] for i in succ))
 
     def dependencies(self, symbol_or_statement: Union[TSymbol, Statement]) -> set[Expr]:
